@@ -202,7 +202,14 @@ func (c *Ctx) finish() int {
 			fmt.Printf("KNOWN-FINDING: property=%s key=%s %s (seen in %d cases this run)\n", c.ID, k.Key, k.Text, c.knownSeen[k.Key])
 		}
 	}
-	os.MkdirAll(filepath.Join(c.Verif, "replays"), 0o755)
+	replayDir := filepath.Join(c.Verif, "replays")
+	evDir := filepath.Join(c.Verif, "evidence")
+	if d := os.Getenv("VERIF_EVIDENCE_DIR"); d != "" {
+		// runs against scratch copies (mutant self-test) must not overwrite the evidence of /repo
+		evDir = d
+		replayDir = filepath.Join(d, "replays")
+	}
+	os.MkdirAll(replayDir, 0o755)
 	if len(c.violations) > 8 {
 		fmt.Printf("%d distinct failing check keys; the first 8 (sorted) are written as replay files\n", len(c.violations))
 		for _, v := range c.violations[8:] {
@@ -211,7 +218,7 @@ func (c *Ctx) finish() int {
 		c.violations = c.violations[:8]
 	}
 	for i, v := range c.violations {
-		path := filepath.Join(c.Verif, "replays", fmt.Sprintf("%s-%s-%d.json", c.ID, c.Tier, i+1))
+		path := filepath.Join(replayDir, fmt.Sprintf("%s-%s-%d.json", c.ID, c.Tier, i+1))
 		b, _ := json.MarshalIndent(v, "", " ")
 		if err := os.WriteFile(path, b, 0o644); err != nil {
 			fmt.Fprintf(os.Stderr, "cannot write replay: %v\n", err)
@@ -243,6 +250,9 @@ func (c *Ctx) finish() int {
 	sort.Strings(ks)
 	cov["known_findings_seen"] = ks
 	cov["workers"] = runtime.NumCPU()
+	if a := os.Getenv("VERIF_AUX_RESULT"); a != "" {
+		cov["auxiliary_race_pass"] = a
+	}
 	ev := map[string]interface{}{
 		"property_id": c.ID,
 		"tier":        c.Tier,
@@ -253,11 +263,11 @@ func (c *Ctx) finish() int {
 		"wall_s":      float64(int(wall*1000)) / 1000,
 		"violations":  int(c.nViol),
 	}
-	os.MkdirAll(filepath.Join(c.Verif, "evidence"), 0o755)
+	os.MkdirAll(evDir, 0o755)
 	b, _ := json.MarshalIndent(ev, "", " ")
-	tmp := filepath.Join(c.Verif, "evidence", c.ID+".json.tmp")
+	tmp := filepath.Join(evDir, c.ID+".json.tmp")
 	if err := os.WriteFile(tmp, append(b, '\n'), 0o644); err == nil {
-		os.Rename(tmp, filepath.Join(c.Verif, "evidence", c.ID+".json"))
+		os.Rename(tmp, filepath.Join(evDir, c.ID+".json"))
 	} else {
 		fmt.Fprintf(os.Stderr, "cannot write evidence: %v\n", err)
 	}
